@@ -369,3 +369,59 @@ func readHexDigits(input []byte) rune {
 	hex |= hex >> 8
 	return rune(hex & 0xFFFF)
 }
+
+// hasUnpairedSurrogateEscape reports whether the JSON text contains a \uXXXX
+// escape of a UTF-16 surrogate that is not part of a high/low pair. CompactJSON
+// drops such an escape, so the canonical form - and every hash and signature
+// made over it - is the same with and without it, while decoders read it as
+// U+FFFD: it is not covered by what is signed.
+func hasUnpairedSurrogateEscape(js []byte) bool {
+	hex := func(b []byte) (rune, bool) {
+		var r rune
+		for _, c := range b {
+			switch {
+			case '0' <= c && c <= '9':
+				r = r<<4 | rune(c-'0')
+			case 'a' <= c && c <= 'f':
+				r = r<<4 | rune(c-'a'+10)
+			case 'A' <= c && c <= 'F':
+				r = r<<4 | rune(c-'A'+10)
+			default:
+				return 0, false
+			}
+		}
+		return r, true
+	}
+	for i := 0; i < len(js); i++ {
+		if js[i] != '\\' || i+1 >= len(js) {
+			continue
+		}
+		if js[i+1] != 'u' {
+			i++ // skip the escaped character
+			continue
+		}
+		if i+6 > len(js) {
+			return true
+		}
+		r, ok := hex(js[i+2 : i+6])
+		if !ok {
+			return true
+		}
+		i += 5
+		if r < 0xD800 || r > 0xDFFF {
+			continue
+		}
+		if r >= 0xDC00 {
+			return true // a low surrogate comes first
+		}
+		if i+7 > len(js) || js[i+1] != '\\' || js[i+2] != 'u' {
+			return true
+		}
+		r2, ok := hex(js[i+3 : i+7])
+		if !ok || r2 < 0xDC00 || r2 > 0xDFFF {
+			return true
+		}
+		i += 6
+	}
+	return false
+}
